@@ -27,7 +27,7 @@ def gen_message(rng, echo, faulty):
         if k == fpos:
             if kind == 'syntax':
                 texts.append(rng.choice([b'X 1 2', b'X ,', b'X!', b'X "a" "b"', b'X 1,,2', b'&', b'X #', b'BOOL 1e', b'SYST::A', b'STR "it\'s" !',
-                                         b"STR 'a\"b' 'c'", b'TWO 1,"it\'s" x', b'X "a;b" !']))
+                                         b"STR 'a\"b' 'c'", b'TWO 1,"it\'s" x', b'X "a;b" !', b'SET:U8 5,', b'TWO 1,"x" ,', b'ECHO:U8? 7 , ', b'SET:STR "a",']))
                 errs.append(None)
                 break
             if kind == 'undef':
@@ -55,7 +55,14 @@ def gen_message(rng, echo, faulty):
                                    (b':SET:U64 1.5', '-120'), (b':SET:I16 #HFFFF', '-120')])
                 texts.append(t); errs.append(e)
             elif kind == 'handler':
-                t, e, l = rng.choice([(b':FAIL', '-200', '12()'), (b':FAIL:Q?', '-222', '14()')])
+                hs = [(b':FAIL', '-200', '12()'), (b':FAIL:Q?', '-222', '14()')]
+                for d in echo.decls:   # every handler that raises a standard error of its own (verbatim, whatever its number)
+                    if d.cmd.startswith('RAISe:') and d.beh.startswith('err:'):
+                        if d.args == ['u8']:
+                            hs.append((b':' + d.cmd.encode() + b' 5', d.beh[4:], f'{d.id}(u8:5)'))
+                        elif not d.args:
+                            hs.append((b':' + d.cmd.encode(), d.beh[4:], f'{d.id}()'))
+                t, e, l = rng.choice(hs)
                 texts.append(t); errs.append(e); log.append(l)
             else:
                 texts.append(b':FAIL:CUST'); errs.append('c-1234:' + hx('my "custom" error')); log.append('13()')
